@@ -90,10 +90,22 @@ def _check_crc(res, fp, text, idxs):
                           {"kind": "crc", "text": text}))
 
 
+def _hashlib_name(name):
+    """hashlib's name for an advertised spelling: the statement's two Java spellings, hashlib's own names, and for any
+    further spelling a tree advertises the unique hashlib algorithm with the same letters and digits."""
+    if name in ("MD5", "SHA-256"):
+        return {"MD5": "md5", "SHA-256": "sha256"}[name]
+    if name in hashlib.algorithms_guaranteed:
+        return name
+    squash = lambda n: "".join(ch for ch in n.lower() if ch.isalnum())
+    hits = [n for n in sorted(hashlib.algorithms_guaranteed) if squash(n) == squash(name)]
+    return hits[0] if len(hits) == 1 else None
+
+
 def _check_digest(res, fp, text, name):
     note_case((text, name))
     res.evals += 1
-    py = {"MD5": "md5", "SHA-256": "sha256"}.get(name, name)
+    py = _hashlib_name(name)
     want = hashlib.new(py, text.encode("utf-8")).hexdigest()
     try:
         got = fp(text, name)
@@ -173,7 +185,16 @@ def run_unit(unit, tier):
         res.sample({"text": "a" * 64, "algorithm": "CRC-64-AVRO"})
     elif kind == "digests":
         texts = [""] + MIXED + [a + b for a in MIXED[:16] for b in MIXED[:16]] + _long_texts() + _schema_forms()[:200]
-        for name in _fixed_algos() + ["MD5", "SHA-256", "CRC-64-AVRO"]:
+        import fastavro._schema_common as sc
+
+        more = sorted(n for n in sc.FINGERPRINT_ALGORITHMS if n not in _fixed_algos() + ["MD5", "SHA-256", "CRC-64-AVRO"]
+                      and not n.startswith("shake_"))
+        for name in more:  # further spellings this tree advertises: each must be the hashlib digest it spells
+            if _hashlib_name(name) is None:
+                res.add(Violation("advertised", f"advertised-not-a-digest:{name}", f"{name!r} is advertised but names no hashlib algorithm",
+                                  {"kind": "adv", "name": name}))
+        more = [n for n in more if _hashlib_name(n)]
+        for name in _fixed_algos() + ["MD5", "SHA-256", "CRC-64-AVRO"] + more:
             res.sets["algorithms"].add(name)
             for t in texts:
                 if name == "CRC-64-AVRO":
@@ -187,6 +208,8 @@ def run_unit(unit, tier):
         for name in UNKNOWN + [n.upper() for n in _fixed_algos() if n.upper() not in ("MD5",)] + ["sm3x", "blake3"]:
             if name in hashlib.algorithms_guaranteed or name in ("MD5", "SHA-256", "CRC-64-AVRO"):
                 continue
+            if name in sc.FINGERPRINT_ALGORITHMS and _hashlib_name(name):
+                continue  # advertised by this tree: checked as a digest in the "digests" unit, not as an unknown name
             for t in ("", '"int"', "é"):
                 _check_unknown(res, fp, t, name)
         # the advertised set must contain the names the statement lists
